@@ -11,6 +11,7 @@ import json
 import os
 
 INT, STR, BOOL, FILE = ("int",), ("string",), ("boolean",), ("File",)
+REC = ("record",)   # {x: int, s: string}
 
 
 def arr(t):
@@ -30,7 +31,13 @@ def cwl_type(t):
         return {"type": "array", "items": cwl_type(t[1])}
     if t[0] == "opt":
         return ["null", cwl_type(t[1])]
+    if t == REC:
+        return {"type": "record", "fields": [{"name": "x", "type": "int"}, {"name": "s", "type": "string"}]}
     return t[0]
+
+
+def has_record(t):
+    return t == REC or (t[0] in ("array", "opt") and has_record(t[1]))
 
 
 def has_file(t):
@@ -81,7 +88,12 @@ def accepts(fam, pos, t):
     if fam == "cat2":
         return b in (INT, STR, BOOL)
     if fam == "show":
-        return not has_file(t)
+        # (the key order of an object is not part of its value: records are not rendered as text)
+        return not has_file(t) and not has_record(t)
+    if fam == "recx":
+        return t == REC
+    if fam == "mkrec":
+        return b == INT
     if fam == "len":
         return b[0] == "array"
     if fam == "sum":
@@ -137,6 +149,19 @@ def _gt(ts):
     return expr_tool({"a": ts[0]}, BOOL, 'return {"o": nz(inputs.a, 0) > 1};'), BOOL
 
 
+@family("recx", 1)
+def _recx(ts):
+    return expr_tool({"a": ts[0]}, INT, 'return {"o": inputs.a.x * 2 + inputs.a.s.length};'), INT
+
+
+@family("mkrec", 1)
+def _mkrec(ts):
+    return expr_tool({"a": ts[0]}, REC, 'var a = nz(inputs.a, 0); return {"o": {"x": a, "s": "v" + a}};'), REC
+
+
+V1_FAMILIES = ("add", "cat2", "catf", "echo", "gt", "len", "names", "odd", "range", "show", "sum", "tofile")
+
+
 @family("names", 1)
 def _names(ts):
     return expr_tool({"a": ts[0]}, arr(STR), 'return {"o": inputs.a.map(function(f) { return f.basename; })};'), arr(STR)
@@ -171,7 +196,7 @@ def _catf(ts):
 # productions of the first grammar version: the committed replay files of C29/C34 were recorded with exactly these
 # optional productions drawing from the tape; later productions are enabled by `grammar=2` (separate enumerated cases)
 V1_FEATURES = frozenset(["output_merge", "subworkflow", "scatter_any_method", "when", "multi_source", "default_for_null", "valueFrom"])
-V2_FEATURES = V1_FEATURES | frozenset(["tool_default", "valueFrom_other_input", "optional_array_input", "loop"])
+V2_FEATURES = V1_FEATURES | frozenset(["tool_default", "valueFrom_other_input", "optional_array_input", "loop", "records", "nested_subworkflow"])
 
 
 class Gen:
@@ -210,13 +235,15 @@ class Gen:
             return [self.literal(ty[1], label + ".el") for _ in range(n)]
         if ty[0] == "opt":
             return None if t.draw(3, label + ".null") == 0 else self.literal(ty[1], label)
+        if ty == REC:
+            return {"x": self.literal(INT, label + ".x"), "s": self.literal(STR, label + ".s")}
         raise AssertionError(ty)
 
     def input_type(self):
         t = self.t
         if self.features is not None and "optional_array_input" in self.features:
-            k = t.draw(11, "input.type")
-            return (INT, arr(INT), STR, arr(STR), BOOL, opt(INT), FILE, arr(FILE), arr(arr(INT)), arr(opt(INT)), arr(opt(INT)))[k]
+            k = t.draw(13, "input.type")
+            return (INT, arr(INT), STR, arr(STR), BOOL, opt(INT), FILE, arr(FILE), arr(arr(INT)), arr(opt(INT)), arr(opt(INT)), REC, arr(REC))[k]
         k = t.draw(9, "input.type")
         return (INT, arr(INT), STR, arr(STR), BOOL, opt(INT), FILE, arr(FILE), arr(arr(INT)))[k]
 
@@ -323,7 +350,7 @@ class Gen:
         t = self.t
         if depth == 0 and self.on("loop", 7):
             return self.loop_step(avail)
-        fams = sorted(FAMILIES)
+        fams = sorted(FAMILIES) if self.features is not None and "records" in self.features else sorted(V1_FAMILIES)
         for _attempt in range(6):
             fam = fams[t.draw(len(fams), "family")]
             nin, make = FAMILIES[fam]
@@ -402,7 +429,7 @@ class Gen:
                         break
             if choice is None:
                 # no usable source: a literal default
-                lt = {"add": INT, "range": INT, "odd": INT, "gt": INT, "cat2": STR, "show": arr(INT), "len": arr(STR), "sum": arr(INT),
+                lt = {"add": INT, "range": INT, "odd": INT, "gt": INT, "cat2": STR, "show": arr(INT), "len": arr(STR), "sum": arr(INT), "mkrec": INT,
                       "echo": STR, "tofile": STR}.get(fam)
                 if lt is None:
                     return None
@@ -498,6 +525,13 @@ class Gen:
             last, last_t = "t1/o", ty2
         inner["outputs"]["o"] = {"type": cwl_type(last_t), "outputSource": last}
         self.used.add("subworkflow")
+        if self.on("nested_subworkflow", 3):
+            # one more level: a workflow whose only step runs the inner workflow
+            inner = {"class": "Workflow", "requirements": {"SubworkflowFeatureRequirement": {}, **JSREQ},
+                     "inputs": {n: {"type": cwl_type(ty)} for n, ty in zip(names, eff)},
+                     "outputs": {"o": {"type": cwl_type(last_t), "outputSource": "u0/o"}},
+                     "steps": {"u0": {"in": {n: {"source": n} for n in names}, "out": ["o"], "run": inner}}}
+            self.used.add("subworkflow.nested")
         return inner, last_t
 
 
